@@ -7,6 +7,7 @@ import (
 	"path/filepath"
 	"regexp"
 	"sort"
+	"strings"
 	"sync"
 	"sync/atomic"
 	"time"
@@ -90,6 +91,13 @@ func C01(r *core.Run) {
 	}
 	defer md.Close()
 
+	laneDone := make(chan struct{})
+	go func() {
+		defer close(laneDone)
+		c01ShortTimeout(r, md, serverBin, agentBin)
+	}()
+	defer func() { <-laneDone }()
+
 	rng := r.Rand("c01")
 	rounds := r.Pick(5, 30)
 	perClient := r.Pick(40, 60)
@@ -128,6 +136,7 @@ func C01(r *core.Run) {
 			bad           []string
 			err           error
 			aborted       bool
+			ms            int64
 		}
 		type plan struct {
 			Tok, Method              string
@@ -222,11 +231,12 @@ func C01(r *core.Run) {
 					if atomic.LoadInt64(&lost) >= 8 {
 						break // responses are being lost in this round: do not sit out 30 s for every remaining request
 					}
+					t0 := time.Now()
 					m, err := cl.Do(raw, p.Method)
 					if err != nil {
 						atomic.AddInt64(&lost, 1)
 					}
-					res := result{tok: p.Tok, method: p.Method, size: p.RespSize, reqSize: p.ReqSize, err: err}
+					res := result{tok: p.Tok, method: p.Method, size: p.RespSize, reqSize: p.ReqSize, err: err, ms: time.Since(t0).Milliseconds()}
 					if err == nil {
 						res.bad = checkTokResponse(m, p.Method, p.Tok, p.RespSize)
 					}
@@ -240,6 +250,17 @@ func C01(r *core.Run) {
 		time.Sleep(100 * time.Millisecond)
 
 		// oracle 1: every client saw only its own token sites
+		var okMs []int64
+		for _, res := range results {
+			if !res.aborted && res.err == nil {
+				okMs = append(okMs, res.ms)
+			}
+		}
+		sort.Slice(okMs, func(a, b int) bool { return okMs[a] < okMs[b] })
+		p95 := int64(0)
+		if len(okMs) > 0 {
+			p95 = okMs[len(okMs)*95/100]
+		}
 		for _, res := range results {
 			cls := fmt.Sprintf("%s/req%s/resp%s/K%d/abort=%v", res.method, sizeClass(res.reqSize), sizeClass(res.size), K, res.aborted)
 			r.Case(cls)
@@ -247,7 +268,14 @@ func C01(r *core.Run) {
 				continue
 			}
 			if res.err != nil {
-				r.Inconclusive(fmt.Sprintf("client %s got no parsable response: %v", res.tok, res.err))
+				// A response that has not arrived after the client deadline is lost if the round
+				// was otherwise fast (the bound scales with what this machine did under this load:
+				// 95% of the round's requests finished 8x faster than the time this one waited).
+				if len(okMs) >= 20 && res.ms >= 5000 && p95*8 < res.ms {
+					r.Violate("C01:no-response", fmt.Sprintf("client %s got no response after %d ms (95%% of the %d answered requests of the round took <= %d ms): %v", res.tok, res.ms, len(okMs), p95, res.err), res, nil)
+				} else {
+					r.Inconclusive(fmt.Sprintf("client %s got no parsable response: %v", res.tok, res.err))
+				}
 				continue
 			}
 			if len(res.bad) > 0 {
@@ -306,6 +334,7 @@ func C01(r *core.Run) {
 		r.Add("hook_hits_server.id.new", hookHits(r, fmt.Sprintf("server-r%d", round))["server.id.new"])
 		t.close()
 	}
+	<-laneDone
 	r.JudgeRaces(core.ParseRaceLogs(filepath.Join(r.WorkDir, "race-")))
 	r.Set("arrival_order_signatures", len(permSigs))
 	r.Set("list_replies_with_multiple_ids", multiList)
@@ -328,4 +357,112 @@ func sizeClass(n int) string {
 	}
 }
 
-var _ = sort.Strings
+
+// c01ShortTimeout runs the topology with an agent whose --proxy-timeout is far
+// shorter than the proxy's 30 s long poll and than some backend latencies: the
+// agent then keeps abandoning pending-list polls and re-opening response
+// uploads, and every client must still receive its own response.  Responses
+// are small (well below the 4 KiB upload replay limit) and backend latencies
+// stay below twice the time-out, so that the three upload attempts suffice.
+func c01ShortTimeout(r *core.Run, md *fakes.Metadata, serverBin, agentBin string) {
+	const timeout = 2 * time.Second
+	t, err := startE1(r, md, serverBin, agentBin, "st", "--proxy-timeout="+timeout.String())
+	if err != nil {
+		r.Broken("short-timeout lane start: " + err.Error())
+		return
+	}
+	defer t.close()
+	rng := r.Rand("c01-short-timeout")
+	waves := r.Pick(2, 6)
+	type res struct {
+		Tok   string `json:"tok"`
+		Delay int    `json:"backend_delay_ms"`
+		Wave  int    `json:"wave"`
+		Ms    int64  `json:"waited_ms"`
+		Err   string `json:"error,omitempty"`
+		bad   []string
+	}
+	var all []res
+	var mu sync.Mutex
+	for w := 0; w < waves; w++ {
+		// stay idle for more than two time-outs: the agent abandons at least two long polls
+		time.Sleep(2*timeout + time.Duration(rng.Intn(700))*time.Millisecond)
+		var wg sync.WaitGroup
+		n := 4 + rng.Intn(5)
+		for i := 0; i < n; i++ {
+			delay := []int{0, 30, 2300, 2600, 3100, 3500}[rng.Intn(6)]
+			tok := fmt.Sprintf("s%dstw%di%d", r.Seed, w, i)
+			wg.Add(1)
+			go func(tok string, delay, i int) {
+				defer wg.Done()
+				time.Sleep(time.Duration(i*150) * time.Millisecond)
+				cl := rawhttp.NewClient(t.addr, 25*time.Second)
+				defer cl.Close()
+				t0 := time.Now()
+				m, err := cl.Do(tokRequest("GET", tok, 100+i*37, delay, "h"+tok+".example", nil, nil), "GET")
+				x := res{Tok: tok, Delay: delay, Wave: w, Ms: time.Since(t0).Milliseconds()}
+				if err != nil {
+					x.Err = err.Error()
+				} else {
+					x.bad = checkTokResponse(m, "GET", tok, 100+i*37)
+				}
+				mu.Lock()
+				all = append(all, x)
+				mu.Unlock()
+			}(tok, delay, i)
+		}
+		wg.Wait()
+		if r.Violations() > 0 {
+			break
+		}
+	}
+	// Tell a lost response from a machine that is merely overloaded: a final solo
+	// request through the proxy, or else (that probe can be lost for the same
+	// reason) the overhead of the answered requests of this lane and a direct
+	// request to the backend.
+	cl := rawhttp.NewClient(t.addr, 25*time.Second)
+	t0 := time.Now()
+	m, perr := cl.Do(tokRequest("GET", "stprobe", 10, 0, "probe.example", nil, nil), "GET")
+	cl.Close()
+	healthy := perr == nil && len(checkTokResponse(m, "GET", "stprobe", 10)) == 0 && time.Since(t0) < 5*time.Second
+	if !healthy && t.agent.Alive() && t.server.Alive() {
+		worst := int64(0)
+		for _, x := range all {
+			if x.Err == "" && x.Ms-int64(x.Delay) > worst {
+				worst = x.Ms - int64(x.Delay)
+			}
+		}
+		dc := rawhttp.NewClient(t.backend.Srv.Addr(), 5*time.Second)
+		t1 := time.Now()
+		_, derr := dc.Do(tokRequest("GET", "stdirect", 10, 0, "probe.example", nil, nil), "GET")
+		dc.Close()
+		healthy = derr == nil && time.Since(t1) < 500*time.Millisecond && worst < 5000
+	}
+	for _, x := range all {
+		cls := "short-proxy-timeout/delay<timeout"
+		if x.Delay >= 2000 {
+			cls = "short-proxy-timeout/delay>timeout"
+		}
+		r.Case(cls)
+		switch {
+		case x.Err != "" && healthy && x.Ms >= 20000:
+			r.Violate("C01:no-response:short-proxy-timeout", fmt.Sprintf("client %s (backend latency %d ms, agent --proxy-timeout=%s) got no response after %d ms although a later solo request was served promptly: %s", x.Tok, x.Delay, timeout, x.Ms, x.Err), x, nil)
+		case x.Err != "":
+			r.Inconclusive(fmt.Sprintf("short-timeout lane: client %s got no parsable response (%s), final probe healthy=%v", x.Tok, x.Err, healthy))
+		case len(x.bad) > 0:
+			r.Violate("C01:client-saw-foreign-or-altered-response", fmt.Sprintf("short-timeout lane: client %s: %v", x.Tok, x.bad), x, nil)
+		}
+	}
+	r.Add("short_timeout_lane_requests", len(all))
+	r.Add("short_timeout_lane_abandoned_polls", strings.Count(t.agent.Log(), "Failed to read pending requests"))
+	seen := map[string]int{}
+	for _, sn := range t.backend.Seen() {
+		seen[sn.Tok]++
+	}
+	for tok, n := range seen {
+		if n > 1 {
+			r.Violate("C01:request-delivered-twice", fmt.Sprintf("short-timeout lane: backend saw token %s %d times", tok, n), nil, nil)
+		}
+	}
+	judgeProcs(r, true, t.server, t.agent)
+}
